@@ -454,6 +454,22 @@ class Builtins:
                 raise Unsupported("startswith symbolic")
             L = z3.Concat(z3.Re(c), rx.ALL) if name == "startswith" else z3.Concat(rx.ALL, z3.Re(c))
             yield ("val", E.member(recv, L), st); return
+        if isinstance(recv, MatchObj) and name == "group":
+            gi = conc(pos[0]) if pos else 0
+            if not isinstance(gi, int) or gi < 1:
+                raise Unsupported("group(%r)" % (gi,))
+            try:
+                lifts = rx.group_lifts(recv.pat)
+            except NotImplementedError as e:
+                raise Unsupported(str(e))
+            if gi not in lifts:
+                yield ("raise", Exc(IndexError), st); return
+            subj = recv.subject
+            root = subj.root if isinstance(subj, VStr) else subj
+            base = subj.lift if isinstance(subj, VStr) else (lambda R: R)
+            if not is_sym(root):
+                raise Unsupported("group of a concrete subject")
+            yield ("val", VStr(root, lambda R, base=base, l=lifts[gi]: base(l(R)), "group%d" % gi), st); return
         if isinstance(recv, LRef) and name in ("pop", "append", "insert"):
             zh = dict(st.zh)
             n = zh["L_n"][recv.id]; el = zh["L_e"][recv.id]
